@@ -152,9 +152,17 @@ def _closure_def(body, op):
     return None
 
 
-def _single_def_call(body, l):
-    """(block index, terminator) of the only definition of local l when that is a call, else None."""
+def _single_def_call(body, l, depth=0):
+    """(block index, terminator) of the only definition of local l when that is a call (moves of whole locals are followed: `let it = a.map(f); v.extend(it)`), else None."""
     found = []
+    moved = []
+    for bb in body["blocks"]:
+        for st in bb["stmts"]:
+            if st["k"] == "assign" and st["pl"]["l"] == l and not st["pl"]["p"]:
+                moved.append(st["rv"])
+    if len(moved) == 1 and depth < 4 and moved[0].get("k") == "use" and moved[0]["ops"][0].get("k") == "move" and not moved[0]["ops"][0]["pl"]["p"] \
+            and not any(bb["term"].get("k") == "call" and bb["term"]["dest"]["l"] == l and not bb["term"]["dest"]["p"] for bb in body["blocks"]):
+        return _single_def_call(body, moved[0]["ops"][0]["pl"]["l"], depth + 1)
     for bi, bb in enumerate(body["blocks"]):
         for st in bb["stmts"]:
             if st["k"] == "assign" and st["pl"]["l"] == l and not st["pl"]["p"]:
